@@ -81,7 +81,7 @@ fn check(c: &Case, obs: &mut Obs) {
 pub fn run(ctx: &Ctx) {
     ctx.run_prop(
         "command_group_length",
-        "1-12 group-0000 elements with VR in {UI, US, UL, AE, LO, AT}, random lengths / multiplicity (default repertoire), unique tags, handed to the constructor in random order, optionally with a stale (0000,0000); oracle: recorded Command Group Length == size of the reference Implicit VR LE encoding of the remaining elements == measured bytes after the group length element in the written set; the written set re-parses; non-trivial = at least two elements",
+        "1-12 group-0000 elements with VR in {UI, US, UL, AE, LO, AT}, random lengths / multiplicity (default repertoire), a quarter of the text values already padded with 1-8 trailing spaces or NULs, unique tags, handed to the constructor in random order, optionally with a stale (0000,0000); oracle: recorded Command Group Length == size of the reference Implicit VR LE encoding of the remaining elements == measured bytes after the group length element in the written set; the written set re-parses; non-trivial = at least two elements",
         || {
             let vrs = proptest::sample::select(vec!["UI", "US", "UL", "AE", "LO", "AT"]);
             let el = (1u16..0x1200, vrs).prop_flat_map(|(e, vr)| (Just(e), Just(vr), crate::gen::value_for(vr, 0))).prop_map(|(e, vr, v)| Elem { g: 0, e, vr: vr.to_string(), v });
@@ -96,6 +96,23 @@ pub fn run(ctx: &Ctx) {
                         x ^= x >> 7;
                         x ^= x << 17;
                         elems.swap(i, (x % (i as u64 + 1)) as usize);
+                    }
+                    // values as applications hand them over: often already padded (AE titles filled up with spaces,
+                    // UIDs with a NUL), by one or by several pad characters
+                    for (i, e) in elems.iter_mut().enumerate() {
+                        let r = (x >> (i * 5 % 60)) & 31;
+                        if r < 8 {
+                            let pad = if e.vr == "UI" && r % 2 == 0 { "\0" } else { " " };
+                            let n = 1 + (r as usize % 4) * 2 + (r as usize / 4) % 2;
+                            match &mut e.v {
+                                refimpl::ds::Val::Strs(v) if !v.is_empty() => {
+                                    let k = (r as usize) % v.len();
+                                    v[k].push_str(&pad.repeat(n));
+                                }
+                                refimpl::ds::Val::Str(t) => t.push_str(&pad.repeat(n)),
+                                _ => {}
+                            }
+                        }
                     }
                     Case { elems, stale_group_length }
                 })
